@@ -353,3 +353,95 @@ def valid_dies_are_accepted_and_tiled(chunk, replay=None):
                      "the border), written as YAML text and loaded by the real Die(...); oracle in doubles with relative "
                      "tolerance 1e-9; non-trivial = distinct (layout, kinds, scale) with at least one region",
                 samples=samples, bound=f"N={n}")
+
+
+# ---- bounded leg: larger descriptions (the exhaustive leg stops at 3 regions on a 5x5 lattice) -------------------------------------------
+
+@contract(P, kind="enum", functions=[D + "__init__", D + "_calculate_cell_matrix", D + "_find_all_ground_rectangles", D + "_check_rectangles",
+                                     "frame.geometry.geometry.gather_boundaries"],
+          scope="bounded: random layouts of 4-9 pairwise disjoint regions on a 9x7 lattice (non-square die), 5 scalings; each also spoilt by one "
+                "overlap or one region leaving the die", params=[dict(chunk=i) for i in range(8)])
+def larger_descriptions(chunk, replay=None):
+    tier = os.environ.get("VERIF_TIER", "quick")
+    rng = random.Random(100 + chunk + 100 * int(os.environ.get("VERIF_SEED", "0") or 0))
+    n_cases = 25 if tier != "thorough" else 500
+    NX, NY = 9, 7
+    failures, evals, nontriv, samples = [], 0, 0, []
+
+    def build(layout, kinds, s):
+        W, H = NX * s, NY * s
+        regs, fixed = [], []
+        for (x0, y0, x1, y1), k in zip(layout, kinds):
+            cx, cy, w, h = (x0 + x1) / 2 * s, (y0 + y1) / 2 * s, (x1 - x0) * s, (y1 - y0) * s
+            (fixed if k == "fixed" else regs).append((cx, cy, w, h) if k == "fixed" else (cx, cy, w, h, k))
+        txt = f"width: {_fmt(W)}\nheight: {_fmt(H)}\n"
+        if regs:
+            txt += "regions: [" + ", ".join(f"[{_fmt(a)}, {_fmt(b)}, {_fmt(c)}, {_fmt(d)}, '{t}']" for a, b, c, d, t in regs) + "]\n"
+        net = None
+        if fixed:
+            net = "Modules: {\n" + ",\n".join(f"  F{i}: {{fixed: true, rectangles: [[{_fmt(a)}, {_fmt(b)}, {_fmt(c)}, {_fmt(d)}]]}}"
+                                              for i, (a, b, c, d) in enumerate(fixed)) + "\n}\nNets: []\n"
+        return W, H, regs, fixed, txt, net
+
+    for it in range(n_cases):
+        if replay:
+            layout, kinds, s, spoil = [tuple(r) for r in replay["layout"]], replay["kinds"], replay["scale"], replay.get("spoil")
+        else:
+            layout = []
+            for _ in range(rng.randint(4, 9)):
+                for _try in range(30):
+                    w, h = rng.choice([1, 1, 2, 3]), rng.choice([1, 1, 2, 3])
+                    x0, y0 = rng.randint(0, NX - w), rng.randint(0, NY - h)
+                    b = (x0, y0, x0 + w, y0 + h)
+                    if all(_disjoint(b, o) for o in layout):
+                        layout.append(b)
+                        break
+            kinds = [rng.choice(KIND_OF) for _ in layout]
+            s = rng.choice(SCALES)
+            spoil = None
+        W, H, regs, fixed, txt, net = build(layout, kinds, s)
+        evals += 1
+        if not spoil:
+            res = _check_die(W, H, regs, fixed, txt, net)
+            nontriv += 1
+            if res:
+                failures.append(dict(clause="big." + res[0], layout=layout, kinds=kinds, scale=s, observed=res[1], yaml=txt, netlist=net))
+            if not samples:
+                samples.append(dict(regions=len(layout), scale=s, yaml=txt))
+        # the same description with one defect: two regions overlapping by a lattice cell, or one region leaving the die
+        if replay and not spoil:
+            break
+        if not replay:
+            i = rng.randrange(len(layout))
+            x0, y0, x1, y1 = layout[i]
+            others = [o for j, o in enumerate(layout) if j != i]
+            cands = []
+            for o in others:       # stretch region i until it covers a cell of another region
+                b = (min(x0, o[0]), min(y0, o[1]), max(x1, o[0] + 1), max(y1, o[1] + 1))
+                cands.append(("overlap", b))
+            cands.append(("outside", (x0, y0, NX + 1, y1)))
+            cands.append(("outside", (x0 - (x0 + 1), y0, x1, y1)))
+            spoil, b = rng.choice(cands)
+            bad_layout = list(layout)
+            bad_layout[i] = b
+        else:
+            bad_layout = layout
+        W, H, regs, fixed, txt, net = build(bad_layout, kinds, s)
+        evals += 1
+        Rectangle.undefine_epsilon()
+        try:
+            Die(txt, Netlist(net) if net else None)
+            failures.append(dict(clause="big.invalid_description_rejected", spoil=spoil, layout=bad_layout, kinds=kinds, scale=s, yaml=txt, netlist=net))
+        except AssertionError:
+            pass
+        except Exception as e:  # noqa
+            failures.append(dict(clause="big.invalid_description_rejected_cleanly", spoil=spoil, layout=bad_layout, kinds=kinds, scale=s, observed=f"{type(e).__name__}: {e}",
+                                 yaml=txt, netlist=net))
+        if len(failures) >= 4 or replay:
+            break
+    Rectangle.undefine_epsilon()
+    return dict(evaluations=evals, distinct_nontrivial=nontriv, exhaustive=False, failures=failures[:4],
+                rule="random layouts of 4-9 pairwise disjoint lattice rectangles (tagged specialised A / B, blockage, fixed by a netlist) on a 9x7 lattice, die "
+                     "scaled by 1, 0.1, 0.001, 1/3, 123.456, through the YAML text and the real constructor: accepted, inputs reported unchanged, exact tiling; "
+                     "then one region is stretched over a cell of another region or out of the die: rejected with an AssertionError",
+                samples=samples, bound=f"{n_cases} layouts per chunk")
